@@ -1,1 +1,2 @@
-(* Props/C04.v -- stub, to be filled *)
+(* C04 statements pinned here *)
+From A1 Require Import Uper.Reader.
